@@ -87,3 +87,33 @@ Print Assumptions C03_implementation.
 Theorem C03_rejects_interfaces : forall (D : Domain) c1 c2, different_interfaces c1 c2 -> IoContract_refines c1 c2 = inr IncompatibleArgs.
 Proof. exact @refines_rejects. Qed.
 Print Assumptions C03_rejects_interfaces.
+
+(* ==== T1 tie (LP / numpy) ==== *)
+Require Import PyDict PyLoop PyTermList PyNumpy TermGen TermListGen PolyGen PolyGenBase PolyGenPolytope PolyGenEmpty PolyGenContain.
+(* T1 tie: refines, verify_polytope_containment (with REFINEMENT_TOLERANCE) and is_polytope_empty of polyhedra.py as translated ON THIS RUN (gen/PolyGen.v) ARE the functions of model/Poly.v about which the theorems above speak. proofs/PolyGenContain.v, PolyGenEmpty.v *)
+Theorem C03_code_refines :
+  forall (O : oracle) (self other : list pterm),
+       @PolyhedralTermList_refines (poly_lp O) self other = poly_refines O self other.
+Proof. exact @refines_eq. Qed.
+Print Assumptions C03_code_refines.
+Theorem C03_code_verify_polytope_containment :
+  forall (O : oracle) (vs : list var) (L R : list row),
+       vs <> [] ->
+       L <> [] ->
+       R <> [] ->
+       @Forall (list Q * Q)
+         (fun r : list Q * Q => @Datatypes.length Q (@fst (list Q) Q r) = @Datatypes.length var vs) R ->
+       @PolyhedralTermList_verify_polytope_containment (poly_lp O) vs
+         (@Some ndarray (@A2 Q (@Datatypes.length var vs) (@map (list Q * Q) (list Q) (@fst (list Q) Q) L)))
+         (@Some ndarray (@A1 Q (@map (list Q * Q) Q (@snd (list Q) Q) L)))
+         (@Some ndarray (@A2 Q (@Datatypes.length var vs) (@map (list Q * Q) (list Q) (@fst (list Q) Q) R)))
+         (@Some ndarray (@A1 Q (@map (list Q * Q) Q (@snd (list Q) Q) R))) = verify_polytope_containment O vs L R.
+Proof. exact @verify_polytope_containment_eq. Qed.
+Print Assumptions C03_code_verify_polytope_containment.
+Theorem C03_code_is_polytope_empty :
+  forall (O : oracle) (vs : list var) (rows : list row),
+       @PolyhedralTermList_is_polytope_empty (poly_lp O) vs
+         (mat_of (@Datatypes.length var vs) (@map (list Q * Q) (list Q) (@fst (list Q) Q) rows))
+         (@A1 Q (@map (list Q * Q) Q (@snd (list Q) Q) rows)) = is_polytope_empty O vs rows.
+Proof. exact @is_polytope_empty_eq. Qed.
+Print Assumptions C03_code_is_polytope_empty.
